@@ -24,8 +24,8 @@ QUICK = [T("over_p1c1", [2], 1, [2], [1, 2, 3]).name, T("over_p1c2", [1], 2, [1,
          T("over_p2c1", [1, 1], 1, [2], [1, 3]).name,
          # zero-size items are what the pipeline's sync tokens are: an over-sized contig queued behind them must still be admitted
          T("tokens_p1c1", [3], 1, [2], [0, 3]).name]
-THOROUGH = [T("T_over_p1c2", [2], 2, [2], [1, 2, 3]).name, T("T_over_p1c1", [3], 1, [2, 3], [1, 2, 3, 4]).name, T("T_over_p2c2", [1, 1], 2, [2], [3]).name,
-            T("T_over_p1c3", [1], 3, [2], [1, 3]).name, T("T_tokens_p1c2", [2], 2, [1], [0, 2]).name, "tokens_p1c1"]
+THOROUGH = [T("T_over_p1c2", [2], 2, [2], [1, 3]).name, T("T_over_p1c1", [3], 1, [2, 3], [1, 2, 3, 4]).name, T("T_over_p2c2", [1, 1], 2, [2], [3]).name,
+            T("T_over_p1c3", [1], 3, [2], [1, 3]).name, "tokens_p1c1"]
 
 
 def run(ctx):
